@@ -12,8 +12,9 @@ C29 -- counterexamples (NOT proof obligations; built opportunistically, reported
    detector I(p) = p / (p + 1/4) every iteration is a backstep with `new_step = (step + 1/4)/2`, strictly
    decreasing towards `min_step = 1/4` and never reaching it.  (IEEE doubles do reach it: on the real
    code this input terminates; see harness/props/C29.py.)
-3. `tune_negative_parks_outside`: for signals that are not non-negative the final park position of
-   tune_centroid can lie outside [start, stop] (the property excludes this case by hypothesis).
+3. `tune_negative_centroid_outside`: for signals that are not non-negative the centroid computed by
+   tune_centroid can lie outside [start, stop] (the property excludes this case by hypothesis); since the
+   repair of the one-ulp park defect the final move is clamped, so the motor is parked at the limit.
 -/
 import BlueskyVerif.Props.C29
 
@@ -125,7 +126,15 @@ def cexT : Tune.Params := { start := 0, stop := 8, minStep := 1/4, num := 5, ste
 /-- -1 at position 0, +2 at position 8, 0 elsewhere -/
 def cexIT : Tune.Resp := fun _ p => if p == 0 then -1 else if p == 8 then 2 else 0
 
-theorem tune_negative_parks_outside : Tune.Parks cexT cexIT 16 ∧ ¬ ((16 : Rat) ≤ max cexT.start cexT.stop) :=
-  ⟨⟨by decide +kernel, by decide +kernel, 6, by decide +kernel⟩, by norm_num [cexT]⟩
+/-- the raw centroid of the first pass is 16, outside [0, 8]; the clamp before the final move parks the
+    motor at 8 instead -- so for signed signals the park position is NOT the centroid -/
+theorem tune_negative_centroid_outside :
+    Tune.Parks cexT cexIT 8 ∧
+    (∃ s, Tune.iterN cexT cexIT 5 (Tune.start0 cexT) = .run s ∧ s.peak = some 16) ∧
+    ¬ ((16 : Rat) ≤ max cexT.start cexT.stop) :=
+  ⟨⟨by decide +kernel, by decide +kernel, 6, by decide +kernel⟩,
+   ⟨Tune.recentre cexT cexIT (Tune.cont cexIT (Tune.cont cexIT (Tune.cont cexIT (Tune.cont cexIT (Tune.init cexT))))),
+     by decide +kernel, by decide +kernel⟩,
+   by norm_num [cexT]⟩
 
 end BlueskyVerif.C29.Counterexamples
